@@ -313,6 +313,9 @@ def main():
   # one more: programs that delete an ELEMENT of the list parameter (`del a[0]` does not redefine `a`), family 'delitem'
   for i in range(nrand // 6):
     items.append((len(items), progen.random_program(a.seed * 7000003 + i, size=2 + (i % 4), avoid=avoid, features=('delitem',)), 6, 32))
+  # and: try / except / else / finally with an assignment and a jump in the else clause, family 'tryelse'
+  for i in range(nrand // 5):
+    items.append((len(items), progen.random_program(a.seed * 3000017 + i, size=2 + (i % 4), avoid=avoid, features=('tryelse',)), 6, 32))
   runs = checked = free = dead = nontrivial = errors = 0
   best = {}        # kind:sig -> failure with the smallest program
   counts, cov = {}, {}
